@@ -40,7 +40,7 @@ pub fn parse_block_statement(
             LeftPar => {
                 ctx.stream.skip();
                 let expr = parse_expression(ctx)?;
-                ctx.stream.pop_if_kind(RightPar);
+                ctx.stream.expect_kind(RightPar)?;
                 Some(expr)
             }
             _ => None,
